@@ -33,9 +33,10 @@ def main():
     ap.add_argument('--tier', default='quick')
     ap.add_argument('--keep', action='store_true')
     ap.add_argument('--src', default='/tmp/seed-out')
+    ap.add_argument('--as', dest='store_as', help='store under /verif/seeded/<Cxx>-<name> instead of <Cxx>-<id>')
     a = ap.parse_args()
     sdir = os.path.join(a.src, a.prop)
-    stored = os.path.join(HERE, 'seeded', f'{a.prop}-{a.cid}')
+    stored = os.path.join(HERE, 'seeded', f'{a.prop}-{a.store_as or a.cid}')
     if os.path.exists(os.path.join(stored, 'patch.diff')) and not os.path.exists(os.path.join(sdir, f'{a.cid}.diff')):
         diff, demo = os.path.join(stored, 'patch.diff'), os.path.join(stored, 'demo.py')
         meta_in = json.load(open(os.path.join(stored, 'meta.json')))
@@ -79,7 +80,7 @@ def main():
             if os.path.abspath(diff) != os.path.join(stored, 'patch.diff'):
                 shutil.copy(diff, os.path.join(stored, 'patch.diff'))
                 shutil.copy(demo, os.path.join(stored, 'demo.py'))
-            meta = {'property': a.prop, 'change': a.cid, 'summary': meta_in.get('summary'),
+            meta = {'property': a.prop, 'change': a.store_as or a.cid, 'summary': meta_in.get('summary'),
                     'clause_broken': meta_in.get('clause_broken'), 'needs_to_manifest': meta_in.get('needs_to_manifest'),
                     'files': meta_in.get('files'), 'origin': 'independent sub-agent given only the property text and a scratch worktree',
                     'confirmed_by': {'suite_with_change': out['suite_with_change'], 'demo_with_change_rc': d1.returncode,
